@@ -19,7 +19,8 @@ BIG = dict(unwind=40, object_bits=14, cdefs={'DOM_MAXCH': 36, 'DOM_MAXATTR': 24}
 COMPOSITE = [I('allset', 'h_allset', bound='message with EVERY extension set at once (12 public + 24 sensitive elements); ' + STR, **BIG),
              I('allset_all', 'h_allset_all', bound='message with every extension set, unsplit (SceAll); ' + STR, **BIG),
              I('envelope', 'h_envelope', bound='message with every extension set, real e2ee flow (outer stanza + SCE envelope content); ' + STR, **BIG),
-             I('ni_public', 'h_ni_public', bound='ANY subset of the whitelisted fields (2^12) x ANY subset of the sensitive fields (2^24, chat state/marker any enum value); ' + STR, unwind=16, cdefs={'DOM_MAXCH': 12, 'DOM_MAXATTR': 24}, mem_gb=8, timeout_s=600),
+             ] + [I('ni_public_c%d' % c, 'h_ni_public', bound='ANY subset of the other whitelisted fields (2^10; stanza-id %s, fallback marker %s) x ANY subset of the sensitive fields (2^24, chat state/marker any enum value); %s' % ('present' if c & 1 else 'absent', 'present' if c & 2 else 'absent', STR),
+                    unwind=16, cdefs={'DOM_MAXCH': 12, 'DOM_MAXATTR': 24, 'VP_CASE': c}, mem_gb=8, timeout_s=600, tiers=('quick', 'thorough') if c in (0, 3) else ('thorough',)) for c in range(4)] + [
              I('ni_sensitive', 'h_ni_sensitive', bound='every sensitive field set x ANY subset of the whitelisted fields (2^11); ' + STR, **BIG)]
 KF_INSTANCES = [I('kf_jmi', 'h_kf_jmi', known_finding=KF), I('kf_call_invite', 'h_kf_call_invite', known_finding=KF)]
 SPEC = dict(
